@@ -143,14 +143,24 @@ func c01Extra() ([]mc.Violation, map[string]any) {
 // height before it broadcasts, so its own opening transaction cannot confirm earlier (and lnd, by contract,
 // does not find a transaction below the height hint).
 func c07Watchers() ([]mc.Violation, map[string]any) {
-	out := fmt.Sprintf("%s/c07w-%d.json", workDir, os.Getpid())
+	return csvLivenessSubcheck("C07", "refund_never_triggered:")
+}
+
+// c16Watchers: the same fair-continuation sub-check under C16 ("every swap terminates"): a maker whose
+// watcher never reports CSV maturity never reaches a terminal state.
+func c16Watchers() ([]mc.Violation, map[string]any) {
+	return csvLivenessSubcheck("C16", "no_termination:watcher_never_reports_csv_maturity:")
+}
+
+func csvLivenessSubcheck(prop, prefix string) ([]mc.Violation, map[string]any) {
+	out := fmt.Sprintf("%s/%sw-%d.json", workDir, strings.ToLower(prop), os.Getpid())
 	cmd := exec.Command(os.Args[0], "-test.run", "^TestC20$", "-test.timeout", "0")
 	cmd.Env = append(os.Environ(), "VERIF_C20_ONLY=/csv", "VERIF_C20_SKIP=/early", "VERIF_C20_DRAIN=1", "VERIF_C20_EXPORT="+out)
 	ob, err := cmd.CombinedOutput()
 	b, rerr := os.ReadFile(out)
 	cov := map[string]any{}
 	if rerr != nil {
-		cov["internal"] = []string{fmt.Sprintf("c07 watcher sub-check failed: %v\n%s", err, tail(string(ob), 3000))}
+		cov["internal"] = []string{fmt.Sprintf("%s watcher sub-check failed: %v\n%s", prop, err, tail(string(ob), 3000))}
 		return nil, cov
 	}
 	_ = os.Remove(out)
@@ -166,7 +176,7 @@ func c07Watchers() ([]mc.Violation, map[string]any) {
 	var vs []mc.Violation
 	for _, v := range rep.Violations {
 		if strings.Contains(v.Key, "csv_maturity_never_reported") {
-			vs = append(vs, mc.Violation{Property: "C07", Key: "refund_never_triggered:" + v.Key, Detail: v.Detail, History: v.History, Scenario: "watcher:" + v.Scenario})
+			vs = append(vs, mc.Violation{Property: prop, Key: prefix + v.Key, Detail: v.Detail, History: v.History, Scenario: "watcher:" + v.Scenario})
 		}
 	}
 	if len(rep.Internal) > 0 {
@@ -188,7 +198,7 @@ func c07Watchers() ([]mc.Violation, map[string]any) {
 func c05Watchers() ([]mc.Violation, map[string]any) {
 	out := fmt.Sprintf("%s/c05w-%d.json", workDir, os.Getpid())
 	cmd := exec.Command(os.Args[0], "-test.run", "^TestC20$", "-test.timeout", "0")
-	cmd.Env = append(os.Environ(), "VERIF_C20_ONLY=-btc/conf", "VERIF_C20_C05=1", "VERIF_C20_EXPORT="+out)
+	cmd.Env = append(os.Environ(), "VERIF_C20_ONLY=-btc/conf", "VERIF_C20_C05=1", "VERIF_C20_HEIGHT=1", "VERIF_C20_EXPORT="+out)
 	ob, err := cmd.CombinedOutput()
 	b, rerr := os.ReadFile(out)
 	cov := map[string]any{}
@@ -208,6 +218,9 @@ func c05Watchers() ([]mc.Violation, map[string]any) {
 	_ = json.Unmarshal(b, &rep)
 	var vs []mc.Violation
 	for _, v := range rep.Violations {
+		if i := strings.Index(v.Key, ":height_answer_stale_during_outage"); i > 0 {
+			vs = append(vs, mc.Violation{Property: "C05", Key: "htlc_may_outlive_csv:watcher=" + v.Key[:i] + ":cause=stale_height_answered_while_backend_is_down", Detail: v.Detail, History: v.History, Scenario: "watcher:" + v.Scenario})
+		}
 		if i := strings.Index(v.Key, ":confirmed_reported_at_depth_ge_window"); i > 0 {
 			vs = append(vs, mc.Violation{Property: "C05", Key: "htlc_may_outlive_csv:watcher=" + v.Key[:i] + ":cause=confirmation_reported_for_tx_already_a_window_deep", Detail: v.Detail, History: v.History, Scenario: "watcher:" + v.Scenario})
 		}
@@ -221,4 +234,54 @@ func c05Watchers() ([]mc.Violation, map[string]any) {
 	}
 	cov["watcher_subcheck"] = map[string]any{"rule": "confirmation-registration families of the real-watcher exploration on Bitcoin (rpc, lnd; tx confirmed before / after the start height; reorgs, faults, mid-call changes): a success report for a transaction that is already window (= CSV/2) blocks deep", "states": rep.States, "executions": rep.Executions, "exhaustive": rep.Exhaustive, "families": fams}
 	return vs, cov
+}
+
+// c04Watchers: the Liquid window test reads the tip through the watcher's GetBlockHeight; the real rpc watcher is
+// explored over its block histories and, at the end of each, asked for the height while its backend is down.
+func c04Watchers() ([]mc.Violation, map[string]any) {
+	out := fmt.Sprintf("%s/c04w-%d.json", workDir, os.Getpid())
+	cmd := exec.Command(os.Args[0], "-test.run", "^TestC20$", "-test.timeout", "0")
+	cmd.Env = append(os.Environ(), "VERIF_C20_ONLY=rpc-lbtc/conf", "VERIF_C20_HEIGHT=1", "VERIF_C20_EXPORT="+out)
+	ob, err := cmd.CombinedOutput()
+	b, rerr := os.ReadFile(out)
+	cov := map[string]any{}
+	if rerr != nil {
+		cov["internal"] = []string{fmt.Sprintf("c04 watcher sub-check failed: %v\n%s", err, tail(string(ob), 3000))}
+		return nil, cov
+	}
+	_ = os.Remove(out)
+	var rep struct {
+		Violations []mc.Violation `json:"violations"`
+		States     int            `json:"states"`
+		Executions int            `json:"executions"`
+		Internal   []string       `json:"internal"`
+		Exhaustive bool           `json:"exhaustive"`
+	}
+	_ = json.Unmarshal(b, &rep)
+	var vs []mc.Violation
+	for _, v := range rep.Violations {
+		if i := strings.Index(v.Key, ":height_answer_stale_during_outage"); i > 0 {
+			vs = append(vs, mc.Violation{Property: "C04", Key: "payment_window_judged_on_stale_tip:watcher=" + v.Key[:i] + v.Key[i+len(":height_answer_stale_during_outage"):], Detail: v.Detail, History: v.History, Scenario: "watcher:" + v.Scenario})
+		}
+	}
+	if len(rep.Internal) > 0 {
+		cov["internal"] = rep.Internal
+	}
+	cov["watcher_subcheck"] = map[string]any{"rule": "block histories of the real rpc watcher on Liquid; at the end of each the backend stops answering getblockcount while the chain grows: GetBlockHeight must answer with an error or the true tip", "states": rep.States, "executions": rep.Executions, "exhaustive": rep.Exhaustive}
+	return vs, cov
+}
+
+func c04Extra() ([]mc.Violation, map[string]any) {
+	v1, c1 := c04Builders()
+	v2, c2 := c04Watchers()
+	for k, v := range c2 {
+		if k == "internal" {
+			if l, ok := c1["internal"].([]string); ok {
+				c1["internal"] = append(l, v.([]string)...)
+				continue
+			}
+		}
+		c1[k] = v
+	}
+	return append(v1, v2...), c1
 }
